@@ -24,6 +24,13 @@ def rule_R1(chk, repo):
     if len(fs) < 10:
         raise AnalysisError(f'only {len(fs)} functions store quantum numbers - anchors vanished?')
     for fi in fs:
+        # a private helper that calls one of its own parameters is analysed in the contexts of its callers only (with the
+        # function that is actually handed in), not as an entry point with an unknown function
+        called_params = {c.func.id for c in ast.walk(fi.node) if isinstance(c, ast.Call) and isinstance(c.func, ast.Name)} & \
+            set(fi.params)
+        # (when no call is left, every call site has been inlined at load time and is analysed there)
+        if called_params and fi.name.startswith('_') and not fi.cls:
+            continue
         eng.analyse_entry(fi)
     for key, rec in sorted(eng.store_records.items()):
         fi = rec['fi']
